@@ -456,3 +456,26 @@ PROPS["C18"] = dict(
     level_note="A TSan report anywhere in the process halts the run and is reported as a violation; the unchanged tree produces none.",
     design_ref="DESIGN.md section 7, C18",
 )
+
+
+PROPS["C20"] = dict(
+    level="model_checking", variant="asan", exhaustive=False,
+    stages=lambda tier, seed: [mc("cells", "MC_C20", "MC_C20_%s.cfg" % tier, dopts=dict(runner="tools"), target_ops=12)],
+    rule="On the specification (Tools.tla via MC_C20): the jwt-verify machine over token lists good^g bad^b in three "
+         "orders for g in {0,1,3} and b in {0,1,2,255,256,257,512} (quick) / every b in 0..520 (thorough): exit status "
+         "zero iff every token verified, failure counter exact. Against the tools built from the working tree: "
+         "jwt-verify over the same counts through argv and stdin in two orders (tokens made by jwt-generate; failing "
+         "ones by damaging the signature); jwt-generate | jwt-verify round trips for ten key/alg pairs (key with and "
+         "without alg attribute, so that -a/--algorithm is exercised) x short/long option spelling on either side x "
+         "--json x --no-iat, with -c/--claim of every type; key2jwk on every fixture key file (RSA 512..4096, every "
+         "curve incl. twelve EC keys whose x, y or d has a leading zero byte, Ed25519, Ed448; private and public PEM; "
+         "oct files of 32..512 bytes): one key, imported by the library without error, same public and private "
+         "components (driver projection), fixed-width EC x/y/d; jwk2key of that JWKS, and the file it writes converted "
+         "again must still be the same key. distinct = distinct cells.",
+    assumptions=ASSUME_COMMON + ["tool output is decoded by the Python runner (bin/vtools.py), which logs and never judges; key identity is decided by the driver's projection against the key it exported"],
+    level_text="The exit-status relation is model-checked on the tool machine for every count up to 520; every cell "
+               "is executed against the real tools and the logged exit statuses, token shapes, member widths and key "
+               "identities are judged in TLC.",
+    level_note="Fixture keys (the leading-zero EC keys are committed fixtures so that the width clause is exercised on every run); jwk2key's file naming and overwrite options are not modelled.",
+    design_ref="DESIGN.md section 7, C20",
+)
